@@ -45,7 +45,7 @@ ONext ==
                      (Ev.a = "TimerFire" /\ timer = "armed" /\ ~complete /\ tp = "open")
                          => (Len(o.wire) = 1 /\ o.wire[1].st = 40 /\ o.tp = "closing") >>
 Flags == << OneResponse, WellFormed, NeverTorn, ThenClosed, GateC04, NoneBeyondRefusal, FirstRejectionWins,
-            AtMostOnce, TimerWhileWaiting, AnsweredWhenQuiet, SegIndep, OnlyValidReachHandler,
+            AtMostOnce, TimerWhileWaiting, AnsweredWhenQuiet, SegIndep, OnlyValidReachHandler, Progress,
             aflags[1], aflags[2] >>
 Report == PrintT(<<"REACHED", tid, l, Len(Steps) + 1, Flags>>)
 =============================================================================
